@@ -1,38 +1,76 @@
 #!/usr/bin/env python3
-"""Regenerates MANIFEST.json from the table below (kept valid against /root/.vp/MANIFEST.schema.json)."""
+"""Regenerates MANIFEST.json (kept valid against /root/.vp/MANIFEST.schema.json).
+A property is claimed at level `proof` when lean/CardVerif/Audit/<id>.lean exists (its property theorems are all
+proved and audited on every run), otherwise at level `other` (model + spec oracle + correspondence, theorems pending)."""
 import json, os, sys
 HERE = os.path.dirname(os.path.dirname(os.path.abspath(__file__)))
 ALL = [f"C{i:02d}" for i in range(1, 21)]
 
-# pid -> (category, text, note, technique, design_ref)
-CLAIMS = {
- "C02": ("proof",
-   "Lean 4 theorems about the hand-written model Pot.settle: conservation of chips through every increment of the "
-   "settlement loop and (Props/C02) equality with the unit-layer side-pot spec; the model is tied to pot.py on every run "
-   "by differential execution (random + boundary pots, thorough: all pots of <=4 seats with every ordered ranking) and the "
-   "implementation's own payouts are judged against the Lean spec `specPayout`.",
-   "Trusted: Lean kernel + standard axioms; the correspondence is testing (reach reported in evidence); payout floats "
-   "compared at 1e-9; chips < 2^53.",
-   "Lean 4 proof (induction over tiers/increments) about a hand-written model + differential correspondence with pot.py",
-   "DESIGN.md §7 C02, App. A.1"),
- "C14": ("proof",
-   "Lean 4 theorems about the model of get_rake_per_player for any monotone integer-fixing rounding function (instantiated "
-   "with exact and with IEEE-754 binary64 arithmetic): bounds, monotonicity, cap, order preservation; the model equals "
-   "CPython's float behaviour by differential execution on boundary fractions, and the inequalities are re-judged on the "
-   "implementation's own rake vectors.",
-   "Trusted: Lean kernel + standard axioms; Float53.rnd as the model of CPython double arithmetic (validated differentially); "
-   "correspondence is testing.",
-   "Lean 4 proof (loop invariant over contribution levels) + differential correspondence with pot.py",
-   "DESIGN.md §7 C14"),
+# pid -> (what the Lean theorems state, design ref)
+DESC = {
+ "C01": ("conservation of stacks+pot and non-negativity by induction over every reachable state; at completion payouts+rake=pot, "
+         "payouts >= 0, pnl sums to -rake (exact rationals, any monotone integer-fixing rounding)", "§7 C01"),
+ "C02": ("Pot.settle = the unit-layer side-pot spec for every contribution vector and every ranking holding a maximal contributor "
+         "(settle_eq_spec) with corollaries (conservation, non-negativity, folded seats get nothing, unmatched chips return, "
+         "nobody collects more than he matched)", "§7 C02, App. A.1"),
+ "C03": ("is_action_closed = the closure rule on every table whose top contribution is held by a non-folded seat (hence every "
+         "reachable state); one-step theorems: next live seat clockwise, fold-out / run-out end the hand at once without dealing, "
+         "next street deals exactly 3/1/1 from the top of the deck and opens on the first live seat; construction facts", "§7 C03, App. A.2"),
+ "C04": ("exact characterisation accept <-> LegalWith(engine's own minimum) for every candidate action; effect of an accepted action; "
+         "history invariant gap <= max(bb, lastRaise), hence nothing legal is refused and everything accepted is legal or in the F5 "
+         "deviation set; machine-checked F5 witness", "§7 C04, App. A.3"),
+ "C05": ("five_card_hand_rank = the rules' key for every list of five distinct cards in every order (kernel-evaluated table over all "
+         "6,188 rank multisets x flush flag + permutation-invariance lemmas), order independence, suit blindness", "§7 C05"),
+ "C06": ("brute-force Omaha and Hold'em strength = best key among exactly the 60 / 21 legal five-card hands (structural); size guards. "
+         "NOT proved: optimised Omaha evaluator = brute force (covered by model + spec correspondence only)", "§7 C06"),
+ "C07": ("get_best_hands_generic returns tiers that partition the contenders, group equal strengths and are strictly descending; "
+         "mapping back to seats; fold-out and showdown payouts are the (averaged) side-pot settlements under those tiers; run-out "
+         "boards are five distinct cards disjoint from hole cards", "§7 C07"),
+ "C08": ("meld enumeration exact; best split is a legal arrangement with minimum deadwood over ALL arrangements; candidate list "
+         "sound/complete/stop-on-gin", "§7 C08, App. A.4"),
+ "C09": ("stock+discard+hands is a permutation of the deal without duplicates in every reachable state for every permuting shuffle; "
+         "hand sizes; frame lemmas per move", "§7 C09"),
+ "C10": ("accept <-> Allowed for every move in every reachable in-progress state; transition relation", "§7 C10"),
+ "C11": ("complete <-> gin / knock / wall / turn limit; points per ending; winner shows zero; gin priority on the last turn", "§7 C11"),
+ "C12": ("lay-offs legal, partition of the hand, deadwood minimal", "§7 C12, App. A.5"),
+ "C13": ("a legal action exists in every in-progress state; an accepted action never fails inside advance_action (no 'money left', "
+         "a seat to move to exists, samples fit, evaluator total); explicit bound on the number of accepted actions via a "
+         "lexicographic measure; shape of a complete hand", "§7 C13"),
+ "C14": ("rake: none without a flop; <= contribution; equal for equal contributions; order of stakes preserved (any monotone "
+         "integer-fixing rounding); non-negative, monotone, <= cap, <= fraction of the pot (exact arithmetic)", "§7 C14"),
+ "C15": ("replay / reset / resume as functions of the modelled fields", "§7 C15"),
+ "C16": ("the model reads the process-global Action sets but never writes them; transcripts are functions of the game's own inputs", "§7 C16"),
+ "C17": ("public card map sound, never names a stock card, secrecy w.r.t. the public history, view content, wait iff off turn", "§7 C17"),
+ "C18": ("symmetry of every evaluator under card order and suit relabelling; canonical form; equity shares", "§7 C18"),
+ "C19": ("ricky value = 0 iff disjoint 3+4 melds, otherwise best single meld; sorted hand is a permutation with melds first", "§7 C19"),
+ "C20": ("dealing helpers partition the shuffled deck for every permutation; oversize gin deals rejected", "§7 C20"),
 }
-NOT_YET = "model/theorems for this property are not built yet in this revision (work in progress, see DESIGN.md §7)"
+
 
 def main():
     checks = []
+    claimed = []
     for pid in ALL:
-        if pid not in CLAIMS:
+        what, ref = DESC[pid]
+        has_thms = os.path.exists(os.path.join(HERE, "lean", "CardVerif", "Audit", f"{pid}.lean")) and pid != "C06"
+        impl_ok = os.path.exists(os.path.join(HERE, "harness")) and pid in REGISTERED
+        if not impl_ok:
             continue
-        cat, text, note, tech, ref = CLAIMS[pid]
+        claimed.append(pid)
+        if has_thms:
+            cat = "proof"
+            text = (f"Lean 4 theorems (kernel-checked, no sorry, axioms audited each run) about a hand-written executable model: {what}. "
+                    "The model is tied to /repo's working tree on every run by a differential correspondence (structured generators, "
+                    "boundary probes, corpus of past failures; thorough tier adds small-scope exhaustion) and the implementation's own "
+                    "outputs are judged by an independent rendering of the spec; a disagreement is minimised and replayed.")
+            tech = "Lean 4 machine-checked proof about a hand-written model + differential correspondence with the Python implementation"
+        else:
+            cat = "other"
+            text = (f"Executable Lean 4 model + spec of: {what}. In this revision the property theorems are "
+                    f"{'only partly proved (see text)' if pid == 'C06' else 'not yet proved'}; the check is the differential correspondence "
+                    "between the real code and the Lean model plus an independent spec oracle on the implementation's outputs. "
+                    "Level lowered from proof to other accordingly (DESIGN.md §8).")
+            tech = "executable Lean 4 model and spec (proofs pending/partial) + differential correspondence and spec oracle"
         checks.append({
             "property_id": pid,
             "quick_cmd": f"python3 check.py {pid} --tier quick",
@@ -40,33 +78,41 @@ def main():
             "evidence_file": f"evidence/{pid}.json",
             "replay_cmd_template": "python3 check.py --replay {path}",
             "engine": "lean4-model+correspondence",
-            "level_claimed": {"category": cat, "text": text, "design_ref": ref},
-            "level_note": note,
+            "level_claimed": {"category": cat, "text": text, "design_ref": "DESIGN.md " + ref},
+            "level_note": ("Trusted: Lean 4.33 kernel, axioms propext/Classical.choice/Quot.sound only; the Lean Spec/ definitions as the formal "
+                           "reading of the statement; the correspondence is differential testing (its reach is reported in the evidence, "
+                           "not asserted); CPython semantics listed in DESIGN.md §6; payout floats compared at 1e-9; randomness injected."),
             "technique": tech,
         })
     man = {
         "version": 1,
         "setup_cmd": "cd lean && lake build CardVerif cvdriver",
         "hooks": {"guard": "CARD_UTILS_VERIF",
-                  "enable": "none needed: no instrumentation in /repo; randomness is injected from the harness by replacing random.shuffle/random.sample for the duration of a call",
+                  "enable": "none needed: no instrumentation in /repo; randomness is injected from the harness by replacing the `random` module object inside card_utils modules for the duration of a call",
                   "baseline_off_cmd": "cd /repo && /venv/bin/python -m pytest -q -p no:cacheprovider --timeout=900",
                   "source_commits": [], "add_only": True},
         "engines": [{"name": "lean4-model+correspondence", "path": "lean/ + harness/ + check.py",
-                     "serves_properties": sorted(CLAIMS),
-                     "kind_free_text": "Lean 4 executable model + theorems (lake build), native driver cvdriver, Python differential harness with spec oracles"}],
+                     "serves_properties": claimed,
+                     "kind_free_text": "Lean 4 executable model + specs + theorems (lake build), native driver cvdriver (JSON lines), Python differential harness with spec oracles, corpus and known-findings file"}],
         "checks": checks,
-        "not_applicable": [{"property_id": p, "reason": NOT_YET} for p in ALL if p not in CLAIMS],
+        "not_applicable": [{"property_id": p, "reason": "check not built yet in this revision (see DESIGN.md §7)"} for p in ALL if p not in claimed],
         "notes": "All commands run with cwd=/verif; the repository under test is $CARD_UTILS_REPO (default /repo), imported from its working tree. "
-                 "Genuine defects repaired in /repo are logged in known_findings.json (status fixed); open ones are matched by named deviation predicates.",
+                 "Genuine defects repaired in /repo are logged in known_findings.json (status fixed, 'fix:' commits); open ones (F5, F6, F9) are matched by named deviation predicates and print KNOWN-FINDING.",
     }
     with open(os.path.join(HERE, "MANIFEST.json"), "w") as fh:
         json.dump(man, fh, indent=1)
     try:
         import jsonschema
         jsonschema.validate(man, json.load(open("/root/.vp/MANIFEST.schema.json")))
-        print("MANIFEST.json valid;", len(checks), "checks")
+        print("MANIFEST.json valid;", len(checks), "checks;", [c["property_id"] + ":" + c["level_claimed"]["category"] for c in checks])
     except ImportError:
         print("MANIFEST.json written (jsonschema not available to validate)")
+
+
+sys.path.insert(0, HERE)
+os.environ.setdefault("PYTHONHASHSEED", "0")
+from harness import registry
+REGISTERED = set(registry.REGISTRY)
 
 if __name__ == "__main__":
     main()
